@@ -4,7 +4,9 @@ import (
 	"fmt"
 	"os"
 	"path/filepath"
+	"sort"
 	"strings"
+	"time"
 
 	"github.com/juev/hledger-lsp/internal/server"
 	"github.com/juev/hledger-lsp/internal/verifx/core"
@@ -302,8 +304,38 @@ func checkC13(c *core.Ctx) {
 		c.Note("observed=%v", obs)
 		return
 	}
-	for _, sc := range c13Scenarios(c.Thorough()) {
-		sc := sc
+	// every scenario is explored completely at the quick tier's bound first; the
+	// thorough tier then explores each one again at its deeper bound, sharing out
+	// what is left of the time budget (a scenario that does not finish inside its
+	// share is reported as capped, the others are still reached)
+	scs := c13Scenarios(false)
+	nquick := len(scs)
+	if c.Thorough() {
+		quickBound := map[string]int{}
+		for _, q := range scs {
+			quickBound[q.Name] = q.Bound
+		}
+		for _, d := range c13Scenarios(true) {
+			if d.Bound > quickBound[d.Name] {
+				scs = append(scs, d)
+			}
+		}
+	}
+	execs := map[string]int64{}
+	for si := 0; si < len(scs); si++ {
+		if si == nquick {
+			// cheapest first: what the cheap scenarios leave of their shares goes to the expensive ones
+			sort.SliceStable(scs[nquick:], func(a, b int) bool { return execs[scs[nquick+a].Name] < execs[scs[nquick+b].Name] })
+		}
+		sc := scs[si]
+		stop := c.Expired
+		label := sc.Name
+		if si >= nquick {
+			label = fmt.Sprintf("%s, deeper (bound %d)", sc.Name, sc.Bound)
+			share := time.Until(c.Deadline) / time.Duration(len(scs)-si)
+			until := time.Now().Add(share)
+			stop = func() bool { return c.Expired() || time.Now().After(until) }
+		}
 		dir := c13Dir(c, sc)
 		exp := c13Expected(dir, sc)
 		// determinism of the harness: same schedule twice, same observation
@@ -315,7 +347,7 @@ func checkC13(c *core.Ctx) {
 		}
 		outcomes := map[string]bool{}
 		ex := &explore.Explorer{
-			Bound: sc.Bound, Shard: c.Shard, NShards: c.NShards, Stop: c.Expired,
+			Bound: sc.Bound, Shard: c.Shard, NShards: c.NShards, Stop: stop,
 			Run: func(prefix []int) (vsched.Result, any) { return c13Run(dir, sc, prefix) },
 			Check: func(choices []int, r vsched.Result, obs any, pre int) {
 				o := obs.(map[string]string)
@@ -344,13 +376,20 @@ func checkC13(c *core.Ctx) {
 			return
 		}
 		if ex.Stopped {
-			c.Cap("stopped inside scenario " + sc.Name)
+			c.Cap("stopped inside scenario " + label)
+		}
+		if si < nquick {
+			execs[sc.Name] = int64(ex.Executions)
 		}
 		c.Res.States += ex.Executions
 		c.Res.Transitions += ex.Transitions
 		c.Res.Traces += ex.Executions
-		c.Res.Outcomes[sc.Name] = int64(len(outcomes))
-		c.Bound(sc.Name, fmt.Sprintf("preemption bound %d, %d messages, max %d points, %d threads", sc.Bound, len(sc.Msgs), ex.MaxPoints, ex.MaxThreads))
+		c.Res.Outcomes[label] = int64(len(outcomes))
+		complete := "complete"
+		if ex.Stopped {
+			complete = fmt.Sprintf("stopped after %d executions", ex.Executions)
+		}
+		c.Bound(label, fmt.Sprintf("preemption bound %d, %d messages, max %d points, %d threads, %s", sc.Bound, len(sc.Msgs), ex.MaxPoints, ex.MaxThreads, complete))
 		c.Count("executions_with_preemption", ex.Preempted)
 		if c.Expired() {
 			return
